@@ -430,7 +430,9 @@ def check_descent_complete(ck, R):
             tests.append("<try_resolve result> is not None")
         elif isinstance(t_, ast.Call) and A.norm(t_.func) == "any" and len(t_.args) == 1 and isinstance(t_.args[0], (ast.GeneratorExp, ast.ListComp)) \
                 and len(t_.args[0].generators) == 1 and isinstance(t_.args[0].generators[0].target, ast.Name) and not t_.args[0].generators[0].ifs \
-                and A.norm(t_.args[0].generators[0].iter) == "blacklist" and A.norm(t_.args[0].elt) == "%s is reference" % t_.args[0].generators[0].target.id:
+                and A.norm(t_.args[0].generators[0].iter) == "blacklist" and isinstance(t_.args[0].elt, ast.Compare) and len(t_.args[0].elt.ops) == 1 \
+                and isinstance(t_.args[0].elt.ops[0], ast.Is) and {A.norm(t_.args[0].elt.left), A.norm(t_.args[0].elt.comparators[0])} - {t_.args[0].generators[0].target.id} \
+                <= set(rsa.fi.params) and len({A.norm(t_.args[0].elt.left), A.norm(t_.args[0].elt.comparators[0])}) == 2:
             tests.append("<blacklist identity>")
         else:
             tests.append(A.norm(t_))
